@@ -10,24 +10,24 @@ type sexp = A of string | L of sexp list
 let parse_sexp (s : string) : sexp =
   let n = Stdlib.String.length s in
   let pos = ref 0 in
-  let rec skip () = if !pos < n && (s.[!pos] = ' ' || s.[!pos] = '\n' || s.[!pos] = '\t') then (incr pos; skip ()) in
+  let rec skip () = if !pos < n && ((Stdlib.String.get s !pos) = ' ' || (Stdlib.String.get s !pos) = '\n' || (Stdlib.String.get s !pos) = '\t') then (incr pos; skip ()) in
   let rec item () =
     skip ();
     if !pos >= n then failwith "sexp: eof"
-    else if s.[!pos] = '(' then begin
+    else if (Stdlib.String.get s !pos) = '(' then begin
       incr pos;
       let items = ref [] in
       let fin = ref false in
       while not !fin do
         skip ();
         if !pos >= n then failwith "sexp: unclosed"
-        else if s.[!pos] = ')' then (incr pos; fin := true)
+        else if (Stdlib.String.get s !pos) = ')' then (incr pos; fin := true)
         else items := item () :: !items
       done;
       L (Stdlib.List.rev !items)
     end else begin
       let st = !pos in
-      while !pos < n && s.[!pos] <> ' ' && s.[!pos] <> '(' && s.[!pos] <> ')' do incr pos done;
+      while !pos < n && (Stdlib.String.get s !pos) <> ' ' && (Stdlib.String.get s !pos) <> '(' && (Stdlib.String.get s !pos) <> ')' do incr pos done;
       A (Stdlib.String.sub s st (!pos - st))
     end in
   item ()
